@@ -96,6 +96,10 @@ func c02Concrete(kind string, c c02Content) map[string]any {
 		// an inline concrete object (reachable only through a JSON pointer into this object)
 		if kind == "schemas" && in.Site == "properties" {
 			o["properties"] = map[string]any{"p": map[string]any{"type": "string", "x-id": in.ID + c02Salt}}
+		} else if kind == "pathItems" && in.Site == "post.requestBody.schema" {
+			o["post"] = map[string]any{"responses": map[string]any{"200": map[string]any{"description": "d"}},
+				"requestBody": map[string]any{"content": map[string]any{"application/json": map[string]any{
+					"schema": map[string]any{"type": "object", "x-id": in.ID + c02Salt}}}}}
 		} else {
 			panic("harness: c02 inline site " + kind + ":" + in.Site)
 		}
